@@ -31,7 +31,7 @@ RULE = ("generated histories of 2-14 operations over {connect, connect that drop
         "server hands an already consumed key to a second peer)} for one account started from nothing with batches of 6 keys and a "
         "refill threshold of 4, plus three registered peers; which of the keys on offer the server hands out is generated (first, any, the "
         "highest id); optionally the account starts with a key numbering near the end of the 24-bit id space (latest signed prekey id 7 / MAX-1 / MAX, a confirmed one-time prekey with id MAX-9 / MAX-4 / MAX-1 written through the store API before the first login); every operation is settled before the next. Non-trivial = a lost or "
-        "refused confirmation, or a restart between an offer and its confirmation, or a consumed key. Distinct = canonical JSON.")
+        "refused confirmation, or a restart between an offer and its confirmation, or a consumed key. Upload answer policy `held` + operation `release`: the server stores the keys and its confirmation arrives later (after further operations, on the same connection), one confirmation at a time. Distinct = canonical JSON.")
 ASSUMPTIONS = [
     "server double: key directory handing out each one-time prekey once (re-offering is an explicit operation)",
     "the upload error reply makes the control layer raise by design ('Sent keys were not accepted'); that exception is not a finding",
@@ -192,6 +192,7 @@ def _run(case, out, server, clients, hx):
                     return fail("upload:confirmed_key_offered_again", {"step": step, "id": kid, "op": op[:2]})
                 offered[kid] = val
             u["policy"] = policy
+            u["iq_id"] = node["id"]
             uploads.append(u)
             if policy == "result":
                 confirmed.update(u["keys"].keys())
@@ -244,6 +245,9 @@ def _run(case, out, server, clients, hx):
     for step, op in enumerate(case["ops"]):
         kind = op[0]
         server.upload_policy = pending_policy
+        if not cx.connected() or kind in ("disconnect", "restart", "connect_nosuccess"):
+            # a confirmation still on its way dies with its connection
+            server.held_results = []
         n_up = len(server.uploads)
         n_x_before = len(uploads)
         _db0 = db_rows(hx, phone)
@@ -275,6 +279,25 @@ def _run(case, out, server, clients, hx):
                 server.q(X, N("notification", {"from": "s.whatsapp.net", "id": "cnt-%d" % step, "type": "encrypt", "t": "1500000000"},
                               [N("count", {"value": "3"})]))
                 out.label("key_count_notification")
+        elif kind == "release":
+            # confirmations the server had sent but that were still on their way arrive now, on the connection they belong to; what
+            # they confirm are the keys of *that* upload (an id that has meanwhile been given to a new key does not confirm the new key)
+            if not cx.connected() or not server.held_results:
+                continue
+            d0 = server.byjid.get(X)
+            while server.held_results and cx.connected() and server.byjid.get(X) is d0:
+                # one at a time: a confirmation may make the client drop the connection (the re-login after a passive one), and
+                # whatever was still on its way then never arrives
+                jid, iq_id = server.held_results.pop(0)
+                server.q(jid, N("iq", {"type": "result", "from": "s.whatsapp.net", "id": iq_id}))
+                for u in uploads:
+                    if u.get("iq_id") == iq_id:
+                        confirmed.update(kid for kid, val in u["keys"].items() if offered.get(kid) == val and kid not in consumed)
+                        out.label("held_confirmation_released")
+                if not settle_all():
+                    fail("queues_do_not_drain", {"step": step})
+                    return out
+            server.held_results = []
         elif kind == "restart":
             before_unconfirmed = set(offered) - confirmed - consumed
             cx.stop()
@@ -402,7 +425,8 @@ def shrink_candidates(case):
 def script_strategy():
     sel = st.integers(0, 3)
     op = st.one_of(st.just(["connect"]), st.just(["connect"]), st.just(["disconnect"]), st.just(["disconnect"]), st.just(["connect_nosuccess"]),
-                   st.tuples(st.just("policy"), st.sampled_from(["result", "result", "error", "drop", "stored_unanswered"])).map(list),
+                   st.tuples(st.just("policy"), st.sampled_from(["result", "result", "error", "drop", "stored_unanswered", "held", "held"])).map(list),
+                   st.just(["release"]),
                    st.just(["count"]), st.just(["restart"]), st.just(["restart"]),
                    st.tuples(st.just("consume"), sel, st.sampled_from([0, 0, 1, 3, -1, -1])).map(list),
                    st.tuples(st.just("consume"), sel, st.sampled_from([0, 0, 1, 3, -1, -1])).map(list),
@@ -412,7 +436,7 @@ def script_strategy():
                                                           **dict(([("signed_prekey_start", spk)] if spk is not None else []) +
                                                                  ([("prekey_start", pk)] if pk is not None else []))),
                      st.lists(op, min_size=1, max_size=13), st.integers(0, 2 ** 31 - 1),
-                     st.sampled_from(["result", "result", "error", "drop", "drop", "stored_unanswered"]),
+                     st.sampled_from(["result", "result", "error", "drop", "drop", "stored_unanswered", "held"]),
                      st.sampled_from([None, None, None, None, None, 7, top - 1, top]),
                      st.sampled_from([None, None, None, None, None, None, top - 9, top - 4, top - 1]))
 
@@ -436,6 +460,11 @@ def _enum_basic():
     yield {"sub": "history", "seed": 12, "ops": [["connect"], ["policy", "stored_unanswered"], ["count"], ["consume", 0, -1], ["consume", 1, 3],
                                                  ["policy", "result"], ["disconnect"], ["connect"], ["consume", 2]]}
     yield {"sub": "history", "seed": 4, "ops": [["connect"], ["policy", "drop"], ["count"], ["restart"], ["policy", "result"], ["restart"]]}
+    # confirmations that arrive late: after a key of the upload was consumed and its id re-used, after a further upload, after both
+    yield {"sub": "history", "seed": 5, "initial_policy": "held", "ops": [["connect"], ["consume", 0, -1], ["policy", "drop"], ["count"], ["release"], ["restart"]]}
+    yield {"sub": "history", "seed": 6, "initial_policy": "held", "ops": [["connect"], ["count"], ["release"], ["consume", 0], ["restart"]]}
+    yield {"sub": "history", "seed": 7, "ops": [["connect"], ["policy", "held"], ["count"], ["consume", 1, -1], ["count"], ["release"], ["policy", "result"],
+                                                ["restart"], ["consume", 2]]}
 
 
 def plan(tier):
